@@ -1186,11 +1186,11 @@ func Run(c *core.Ctx) {
 	setup()
 	nExit := c.Pick(216, 1440)
 	nIndep := c.Pick(72, 240)
-	nRand := c.Pick(3200, 32000)
+	nRand := c.Pick(3200, 120000)
 	if c.Race {
 		nExit = c.Pick(36, 360)
 		nIndep = c.Pick(12, 48)
-		nRand = c.Pick(480, 4800)
+		nRand = c.Pick(480, 20000)
 	}
 	for i := 0; i < nExit; i++ {
 		if c.Mine("exit", i) {
@@ -1204,7 +1204,7 @@ func Run(c *core.Ctx) {
 			c.AddEvals(2)
 		}
 	}
-	for i := 0; i < c.Pick(48, 600); i++ {
+	for i := 0; i < c.Pick(48, 2000); i++ {
 		tidScenario(c, "tids", i)
 	}
 	for i := 0; i < nRand; i++ {
